@@ -13,7 +13,7 @@ func init() { register("C02", "exploration", runC02) }
 // C02: what is uploaded is what is served. Differential monitor: generated upload / overwrite / delete programs over
 // a hostile name universe against the reference object model; the whole store is dumped and compared after every step.
 func runC02(run *common.Run) {
-	run.Rule = "case = one generated program (30-80 steps: uploads via media / multipart / resumable with random chunkings, status queries, overlapping re-sends, PUT and POST chunks, gzip request bodies, declared MD5 right/wrong/malformed; after a resumable finalisation was rejected for its declared MD5 the client retries 1-3 times on the SAME session - the rejected request once more, the same bytes from offset 0, a bodiless finalising request, other non-matching bytes from offset 0 - which must never be acknowledged (308 or 4xx incl. 404/410) and must change nothing, and then possibly sends the bytes that do match, which is either refused or an upload of exactly those bytes; overwrites; deletes of live and absent names; metadata patches that send back a full, possibly stale, resource from an earlier GET and must leave content, size and MD5 as uploaded; PATCH bodies with a JSON type error that must be refused without a trace; one upload in eight carries a real gzip stream as its content, mostly declared with contentEncoding gzip in multipart / resumable metadata or by a later PATCH; 'decoy' steps address a delete (mostly), a patch, a patch with a type error, a copy-from or a compose-with-source to a name under which nothing was ever stored: a '/'-separated prefix of a stored name with and without a trailing slash ('a/b', 'a/b/' and 'a', 'a/' while 'a/b/c' is stored), a stored name continued by '/', a never-written decoy of the dump universe - never acknowledged, nothing may change, in particular not the objects below the prefix; 'dirs' scenarios delete a name two or more levels deep and then address an upload / copy / compose / DELETE / reads to the names of its ancestors' 'directories', which are ordinary absent names once nothing is stored below them; a 'same bytes again' scenario (one program in four) writes a 1 MiB object again with identical bytes through every protocol and by copies; 15% of the resumable uploads are sent in >= 2 chunk requests with 1-2 other requests on the same object (upload, patch, delete) between two chunks; 'reads' steps send metadata GET, media GETs through every URL form with and without 'Accept-Encoding: gzip' and a listing for one object - the dump after a step that only read must equal the dump before it) over 2 buckets and 6 names + 2 decoys drawn from the hostile name universe, run on one store (memory or file); after every step the whole store is dumped (bucket GET, full listing, metadata GET and media GET of every universe name; all three URL forms for the name just touched, one rotating form for the others) and compared with the reference model. Non-trivial = the program overwrote a live object, deleted a live object, completed a resumable upload that needed >= 2 chunk requests and had an upload rejected for its MD5; distinct by hash of the executed step log x store. 'sibling' scenarios: two objects whose names extend one another by a suffix a store might use for files of its own (X and X.tmp, X.meta, X~, X.part, X.bak, X.lock, X.new, X.old, X.swp, X.json, X.emumeta.tmp, .X.swp, #X#; file store: only names it can hold), both given non-default metadata (content type, user metadata, acl / owner ..., mostly a patch on top), then 3-6 requests - overwrite by any protocol, patch, copy onto it (also from the sibling: 'upload to name.tmp, rewrite to name'), compose onto it, delete / re-creation - addressed to one of the two, one per step; the dump after each compares both objects' content, metadata, MD5, generation and metageneration with the model."
+	run.Rule = "case = one generated program (30-80 steps: uploads via media / multipart / resumable with random chunkings, status queries, overlapping re-sends, PUT and POST chunks, gzip-compressed request bodies (media and multipart bodies, and for resumable uploads the start request and every chunk incl. bodiless ones), 35% of the uploads with every request body streamed - no Content-Length, chunked transfer, as a client sends that compresses on the fly - in both the compressed and the plain form, declared MD5 right/wrong/malformed; after a resumable finalisation was rejected for its declared MD5 the client retries 1-3 times on the SAME session - the rejected request once more, the same bytes from offset 0, a bodiless finalising request, other non-matching bytes from offset 0 - which must never be acknowledged (308 or 4xx incl. 404/410) and must change nothing, and then possibly sends the bytes that do match, which is either refused or an upload of exactly those bytes; overwrites; deletes of live and absent names; metadata patches that send back a full, possibly stale, resource from an earlier GET and must leave content, size and MD5 as uploaded; PATCH bodies with a JSON type error that must be refused without a trace; one upload in eight carries a real gzip stream as its content, mostly declared with contentEncoding gzip in multipart / resumable metadata or by a later PATCH; 'decoy' steps address a delete (mostly), a patch, a patch with a type error, a copy-from or a compose-with-source to a name under which nothing was ever stored: a '/'-separated prefix of a stored name with and without a trailing slash ('a/b', 'a/b/' and 'a', 'a/' while 'a/b/c' is stored), a stored name continued by '/', a never-written decoy of the dump universe - never acknowledged, nothing may change, in particular not the objects below the prefix; 'dirs' scenarios delete a name two or more levels deep and then address an upload / copy / compose / DELETE / reads to the names of its ancestors' 'directories', which are ordinary absent names once nothing is stored below them; a 'same bytes again' scenario (one program in four) writes a 1 MiB object again with identical bytes through every protocol and by copies; 15% of the resumable uploads are sent in >= 2 chunk requests with 1-2 other requests on the same object (upload, patch, delete) between two chunks; 'reads' steps send metadata GET, media GETs through every URL form with and without 'Accept-Encoding: gzip' and a listing for one object - the dump after a step that only read must equal the dump before it) over 2 buckets and 6 names + 2 decoys drawn from the hostile name universe, run on one store (memory or file); after every step the whole store is dumped (bucket GET, full listing, metadata GET and media GET of every universe name; all three URL forms for the name just touched, one rotating form for the others) and compared with the reference model. Non-trivial = the program overwrote a live object, deleted a live object, completed a resumable upload that needed >= 2 chunk requests and had an upload rejected for its MD5; distinct by hash of the executed step log x store. 'sibling' scenarios: two objects whose names extend one another by a suffix a store might use for files of its own (X and X.tmp, X.meta, X~, X.part, X.bak, X.lock, X.new, X.old, X.swp, X.json, X.emumeta.tmp, .X.swp, #X#; file store: only names it can hold), both given non-default metadata (content type, user metadata, acl / owner ..., mostly a patch on top), then 3-6 requests - overwrite by any protocol, patch, copy onto it (also from the sibling: 'upload to name.tmp, rewrite to name'), compose onto it, delete / re-creation - addressed to one of the two, one per step; the dump after each compares both objects' content, metadata, MD5, generation and metageneration with the model."
 	run.Assumptions = []string{
 		"reference object model written from the statement and the public JSON API; generations are learned from responses",
 		"resumable chunks are sent to the session URL with PUT; POST only to the Location URL the emulator itself issued (well-formed names)",
@@ -67,7 +67,7 @@ func c02Program(run *common.Run, idx int, store string, universe []string) {
 	}
 	pool := append([]string(nil), universe...)
 	common.Shuffle(r, pool)
-	o := &progOpts{Buckets: []string{"vb1", "vb2"}, Names: pool[:6], FileRules: store == "file", MD5Pct: 45, BigPerMille: 12, ExtraPct: 20, GzipObjPct: 12, MidPct: 15,
+	o := &progOpts{Buckets: []string{"vb1", "vb2"}, Names: pool[:6], FileRules: store == "file", MD5Pct: 45, BigPerMille: 12, ExtraPct: 20, GzipObjPct: 12, MidPct: 15, WirePct: 35,
 		W: map[string]int{"upload": 40, "overwrite": 22, "delete": 22, "delete_absent": 6, "patch": 3, "patch_full": 5, "patch_bad": 3, "bucket_cycle": 3, "noop": 3, "reads": 5, "decoy": 9, "dirs": 4, "big_same": 1, "sibling": 6}}
 	for _, b := range o.Buckets {
 		if msg := e.createBucket(b); msg != "" {
